@@ -2,7 +2,7 @@
 // RAII guards on arguments and locals, counting frame storage (with_allocator / coroutine_traits).
 // Reads cases from stdin, prints one canonical line per input line (see lean/Drivers/C04.lean).
 //
-//   case <id> async <int|void|mo> <nExt>
+//   case <id> async <int|void|mo|ref> <nExt>      (ref: async<int &>, results are references to cells of a static array)
 //   coro <i> <act>...        script of instance i (acts below)                      -> "def"
 //   new i | drop i | detach i | start i | fut i | fcoro i | startp i k | startpm i k (rvalue overload) | join i v | pool i
 //   startop i   start(promise) into the result future of an operation object (future + completion callback) whose
@@ -145,10 +145,30 @@ template <typename T> struct world {
 };
 template <typename T> world<T> *world<T>::cur = nullptr;
 
-inline long peek(int &v) { return v; }
-inline long peek(mo &v) { return v.get(); }
-inline long take(int &v) { return v; }
-inline long take(mo &v) { mo m(std::move(v)); return m.get(); }
+// result type `int &` ("ref"): the coroutine returns a reference to cell k of a static array (cell k holds k); the
+// receiving party checks the IDENTITY of what it got (-1: not the named object / dangling, -2: right object, wrong content)
+static constexpr long NCELLS = 1L << 20;
+static int g_cells[NCELLS];
+inline long cell_index(int &r) {
+    int *p = &r;
+    if (p < g_cells || p >= g_cells + NCELLS) return -1;
+    long k = p - g_cells;
+    return r == k ? k : -2;
+}
+template <typename T> long peek(std::remove_reference_t<T> &v) {
+    if constexpr (std::is_reference_v<T>) return cell_index(v);
+    else if constexpr (std::is_same_v<T, mo>) return v.get();
+    else return v;
+}
+template <typename T> long take(std::remove_reference_t<T> &v) {
+    if constexpr (std::is_same_v<T, mo>) { mo m(std::move(v)); return m.get(); }
+    else return peek<T>(v);
+}
+inline std::string vstr(long v) { return v == -1 ? "v:dangling" : v == -2 ? "v:corrupt" : "v:" + std::to_string(v); }
+template <typename T> decltype(auto) mk(long v) {
+    if constexpr (std::is_reference_v<T>) return (g_cells[v < 0 ? 0 : v % NCELLS]);
+    else return T(v);
+}
 
 template <typename T> async_t<T> coro_fn(cstorage &st, int id, guard g, std::vector<act_t> sc);
 template <typename T> future<T> fcoro_fn(cstorage &st, int id, guard g, std::vector<act_t> sc);
@@ -164,13 +184,13 @@ template <typename T> async_t<T> make(int id) { return coro_fn<T>(store_for(id),
             std::string o;                                                                 \
             try {                                                                          \
                 if constexpr (std::is_void_v<T>) { co_await EXPR; o = "ok"; }              \
-                else { long v = GET(co_await EXPR); acc += v; o = "v:" + std::to_string(v); } \
+                else { long v = GET<T>(co_await EXPR); if (v > 0) acc += v; o = vstr(v); }    \
             } catch (...) { o = classify(std::current_exception()); }                      \
             SAW(o);                                                                        \
         } else {                                                                           \
             std::string o;                                                                 \
             if constexpr (std::is_void_v<T>) { co_await EXPR; o = "ok"; }                  \
-            else { long v = GET(co_await EXPR); acc += v; o = "v:" + std::to_string(v); }  \
+            else { long v = GET<T>(co_await EXPR); if (v > 0) acc += v; o = vstr(v); }     \
             SAW(o);                                                                        \
         }                                                                                  \
     } while (0)
@@ -231,13 +251,13 @@ template <typename T> async_t<T> make(int id) { return coro_fn<T>(store_for(id),
             case 'v':                                                                      \
                 RESULT(VALSTR(n + acc));                                                   \
                 if constexpr (std::is_void_v<T>) co_return;                                \
-                else co_return T(n + acc);                                                 \
+                else co_return mk<T>(n + acc);                                             \
             default: break;                                                                \
         }                                                                                  \
     }                                                                                      \
     RESULT(VALSTR(acc));                                                                   \
     if constexpr (std::is_void_v<T>) co_return;                                            \
-    else co_return T(acc);                                                                 \
+    else co_return mk<T>(acc);                                                             \
     } catch (...) {                                                                        \
         RESULT(classify(std::current_exception()));                                        \
         throw;                                                                             \
@@ -250,7 +270,7 @@ template <typename T> std::string outcome_of(future<T> &f) {
     if (!f.ready()) return "pending";
     try {
         if constexpr (std::is_void_v<T>) { f.value(); return "ok"; }
-        else return "v:" + std::to_string(peek(f.value()));
+        else return vstr(peek<T>(f.value()));
     } catch (...) {
         return classify(std::current_exception());
     }
@@ -310,7 +330,7 @@ template <typename T> void run_case(std::istream &in, int next) {
 
     auto set_val = [&](int k, long v) -> bool {
         if constexpr (std::is_void_v<T>) return (*wd.ext[k].prom)();
-        else return (*wd.ext[k].prom)(T(v));
+        else return (*wd.ext[k].prom)(mk<T>(v));
     };
     auto set_exc = [&](int k, int code) -> bool { return (*wd.ext[k].prom)(std::make_exception_ptr(test_exc(code))); };
     auto flush_events = [&](const std::string &head) {
@@ -437,7 +457,8 @@ template <typename T> void run_case(std::istream &in, int next) {
                 std::string o;
                 try {
                     if constexpr (std::is_void_v<T>) { a->join(); o = "ok"; }
-                    else { auto r = a->join(); o = "v:" + std::to_string(peek(r)); }
+                    else if constexpr (std::is_reference_v<T>) { long r = a->join(); o = "v:" + std::to_string(r); }   // join() returns a copy
+                    else { auto r = a->join(); o = vstr(peek<T>(r)); }
                 } catch (...) { o = classify(std::current_exception()); }
                 helper.join();
                 held.erase(i); consume(i);
@@ -467,6 +488,7 @@ template <typename T> void run_case(std::istream &in, int next) {
 }
 
 int main() {
+    for (long k = 0; k < NCELLS; ++k) g_cells[k] = (int)k;
     std::string line;
     while (std::getline(std::cin, line)) {
         auto w = vh::split(line);
@@ -478,6 +500,7 @@ int main() {
         if (ty == "int") run_case<int>(std::cin, next);
         else if (ty == "void") run_case<void>(std::cin, next);
         else if (ty == "mo") run_case<mo>(std::cin, next);
+        else if (ty == "ref") run_case<int &>(std::cin, next);
         else std::cout << "bad-kind\n";
         std::cout.flush();
     }
